@@ -89,7 +89,7 @@ func menuFor(profile string) []opGen {
 		return []opGen{
 			{"delegate", 22, opDelegate}, {"undelegate", 16, opUndelegate}, {"redelegate", 6, opRedelegate},
 			{"unjail", 3, opUnjail}, {"create-validator", 2, opCreateValidator}, {"retire-validator", 1, opRetireValidator},
-			{"create-consumer", 3, opCreateConsumer}, {"update-consumer", 6, opUpdateConsumer}, {"remove-consumer", 1, opRemoveConsumer},
+			{"create-consumer", 3, opCreateConsumer}, {"update-consumer", 6, opUpdateConsumer}, {"update-lists", 4, opUpdateLists}, {"remove-consumer", 1, opRemoveConsumer},
 			{"opt-in", 8, opOptIn}, {"opt-out", 6, opOptOut}, {"assign-key", 6, opAssignKey}, {"commission", 1, opCommission},
 			{"gov-params", 2, opGovParams}, {"gov-staking", 1, opGovStaking}, {"to-gov", 2, opToGov}, {"gov-topn", 4, opGovTopN},
 		}
@@ -102,7 +102,7 @@ func menuFor(profile string) []opGen {
 		}
 	case "lifecycle":
 		return []opGen{
-			{"create-consumer", 14, opCreateConsumer}, {"update-consumer", 14, opUpdateConsumer}, {"remove-consumer", 5, opRemoveConsumer},
+			{"create-consumer", 14, opCreateConsumer}, {"update-consumer", 14, opUpdateConsumer}, {"update-lists", 4, opUpdateLists}, {"remove-consumer", 5, opRemoveConsumer},
 			{"opt-in", 10, opOptIn}, {"opt-out", 3, opOptOut}, {"assign-key", 4, opAssignKey}, {"commission", 2, opCommission},
 			{"delegate", 9, opDelegate}, {"undelegate", 6, opUndelegate},
 			{"to-gov", 3, opToGov}, {"gov-topn", 4, opGovTopN}, {"gov-staking", 2, opGovStaking}, {"infraction", 12, opInfraction}, {"infraction-pair", 5, opInfractionPair},
